@@ -6,15 +6,16 @@ let lookup (p : string) : Model.sexp -> Model.sexp =
   | "c14" -> Model.run_c14
   | "c17" -> Model.run_c17
   | "c18" -> Model.run_c18
-  | "c01" -> Model.run_c01
-  | "c03" -> Model.run_c01
-  | "c04" -> Model.run_c01
+  | "c01" -> Model.run_c01j
+  | "c03" -> Model.run_c03
+  | "c04" -> Model.run_c04
+  | "jsr" -> Model.run_jsr
   | "c19" -> Model.run_c19
-  | "c05" -> Model.run_c05
-  | "c06" -> Model.run_c06
-  | "c13" -> Model.run_c13
+  | "c05" -> Model.run_c05j
+  | "c06" -> Model.run_c06j
+  | "c13" -> Model.run_c13j
   | "c20" -> Model.run_c20
-  | "c07" -> Model.run_c07
+  | "c07" -> Model.run_c07j
   | "c16" -> Model.run_c16
   | "c08" -> Model.run_c08
   | _ -> failwith ("unknown property " ^ p)
